@@ -553,6 +553,28 @@ void Router::processActions(void)
 
         if (!isMove)
         {
+            // A queued connector endpoint change that refers to this obstacle
+            // would be applied after the obstacle has been freed.  Turn it
+            // into a free-floating end at the obstacle's position, which is
+            // what ConnEnd::disconnect() does for ends that are already 
+            // attached when their obstacle is deleted.
+            for (ActionInfoList::iterator other = actionList.begin(); 
+                    other != actionList.end(); ++other)
+            {
+                if (other->type != ConnChange)
+                {
+                    continue;
+                }
+                for (ConnUpdateList::iterator update = other->conns.begin();
+                        update != other->conns.end(); ++update)
+                {
+                    if (update->second.m_anchor_obj == obstacle)
+                    {
+                        update->second = ConnEnd(update->second.position());
+                    }
+                }
+            }
+
             // Free deleted obstacle.
             m_currently_calling_destructors = true;
             deletedObstacles.push_back(obstacle->id());
